@@ -298,3 +298,55 @@ Definition mem (A : absfmt) (v : fl) : bool :=
   | FInf s => if s then a_ninf A else a_pinf A
   | FFin x => if rc x =? 0 then negb (rs x) || a_nz A else mem_fin A x
   end.
+
+(* ---------------------------------------------------------------- repaired variants
+   (fixes/C14-*.diff).  The correspondence accepts, per operation, either the code as
+   it stands (definitions above, whose unsound arms are refuted in AbsFormatProofs.v)
+   or the repaired code below, so the check passes before and after a fix. *)
+
+(* __neg__ with has_neg_zero=True *)
+Definition af_neg_fx (A : absfmt) : absfmt :=
+  AF (a_prec A) (a_exp A) (bneg (a_neg A)) (bneg (a_pos A))
+     (a_ninf A) (a_pinf A) (a_nan A) true.
+
+(* __abs__ with pos_bound = max(self.pos_bound, -self.neg_bound) *)
+Definition af_abs_fx (A : absfmt) : absfmt :=
+  AF (a_prec A) (a_exp A) (bmax (a_pos A) (bneg (a_neg A))) (BFin rf_zero)
+     (a_pinf A || a_ninf A) false (a_nan A) false.
+
+(* RealFloat.__mul__ float arm returning abs(other) * res_sgn *)
+Definition bmul_fx (a b : bnd) : bnd :=
+  match a, b with
+  | BFin x, BFin y => BFin (rf_mul x y)
+  | BFin x, BInf t => BInf (xorb (rs x) t)
+  | BInf s, BFin y => BInf (xorb (rs y) s)
+  | BInf s, BInf t => BInf (xorb s t)
+  | _, _ => BNaN
+  end.
+
+(* __mul__; fix_inf: repaired RealFloat.__mul__; fix_nz: has_neg_zero also when an
+   operand has a negative member (neg_bound < 0) *)
+Definition af_mul_gen (fix_inf fix_nz : bool) (A B : absfmt) : result absfmt :=
+  let bm := if fix_inf then bmul_fx else bmul in
+  bind (effective_prec A) (fun p1 =>
+  bind (effective_prec B) (fun p2 =>
+  let prec :=
+    if ext_eqb p1 (EFin 1) || ext_eqb p2 (EFin 1) then ext_max p1 p2
+    else ext_max (ext_add p1 p2) (EFin 1) in
+  let exp := ext_add (a_exp A) (a_exp B) in
+  let pos := bmax (bm (a_pos A) (a_pos B)) (bm (a_neg A) (a_neg B)) in
+  let neg := bmin (bm (a_pos A) (a_neg B)) (bm (a_neg A) (a_pos B)) in
+  let self_inf := a_pinf A || a_ninf A in
+  let other_inf := a_pinf B || a_ninf B in
+  let inf_out := self_inf || other_inf in
+  let nz :=
+    if fix_nz then (a_nz A || bnd_lt (a_neg A) (BFin rf_zero)) || (a_nz B || bnd_lt (a_neg B) (BFin rf_zero))
+    else a_nz A || a_nz B in
+  Ok (AF prec exp pos neg inf_out inf_out (a_nan A || a_nan B || inf_out) nz))).
+
+(* __le__ with the precision test also when other.exp is -inf *)
+Definition af_le_fx (A B : absfmt) : bool :=
+  match a_prec B, a_exp B with
+  | EFin q, (EMInf | EPInf) => if ext_gt (a_prec A) (EFin q) then false else af_le A B
+  | _, _ => af_le A B
+  end.
